@@ -482,6 +482,89 @@ Proof.
   apply Hspec in Hin as [_ ->]. rewrite rebase_starts in Hp. discriminate.
 Qed.
 
+(** * Hidden state: the result of a file is a function of the file and the file system only *)
+
+Section StatefulFacts.
+  Variable cfg : Type.
+  Variable st : Type.
+  Variable xform : cfg -> path -> content -> fs -> option content * list path.
+  Variable sxform : st -> cfg -> path -> content -> fs -> (option content * list path) * st.
+
+  (** the hidden state (caches, earlier items, earlier runs) never changes a result *)
+  Definition stateless : Prop :=
+    forall s c q txt f, fst (sxform s c q txt f) = xform c q txt f.
+
+  (** then the stateful run, from ANY initial state, is the pure run: the theorems about
+      [run_batch] (one-to-one, isolation, order irrelevance) apply, and what was processed before
+      on the same thread - in this run or in an earlier one - cannot matter *)
+  Theorem stateless_run ff c : stateless -> forall items f s,
+    fst (run_batch_st cfg st sxform ff c items f s) = run_batch cfg xform ff c items f.
+  Proof.
+    intros H. induction items as [|it items IH]; intros f s; [reflexivity|].
+    cbn [run_batch_st Batch.run_batch]. unfold process_item_st, process_item, outcome.
+    destruct (fs_get f (fst it)) as [txt|] eqn:Et.
+    - pose proof (H s c (fst it) txt f) as Hx.
+      destruct (sxform s c (fst it) txt f) as [r s'] eqn:Es. cbn [fst] in Hx. rewrite <- Hx.
+      destruct (fst r) as [o|]; cbn [andb negb].
+      + specialize (IH (fs_write f (snd it) o) s').
+        destruct (run_batch_st cfg st sxform ff c items (fs_write f (snd it) o) s') as [[f2 sts] s2].
+        cbn [fst] in IH. rewrite <- IH. destruct ff; reflexivity.
+      + destruct ff; cbn [andb].
+        * reflexivity.
+        * specialize (IH f s'). destruct (run_batch_st cfg st sxform false c items f s') as [[f2 sts] s2].
+          cbn [fst] in IH. rewrite <- IH. reflexivity.
+    - cbn [andb negb]. destruct ff; cbn [andb].
+      + reflexivity.
+      + specialize (IH f s). destruct (run_batch_st cfg st sxform false c items f s) as [[f2 sts] s2].
+        cbn [fst] in IH. rewrite <- IH. reflexivity.
+  Qed.
+
+  Corollary earlier_state_irrelevant ff c items f s s' :
+    stateless ->
+    fst (run_batch_st cfg st sxform ff c items f s) = fst (run_batch_st cfg st sxform ff c items f s').
+  Proof. intros H. rewrite !(stateless_run ff c H). reflexivity. Qed.
+End StatefulFacts.
+
+(** a cache that is keyed too coarsely makes the result depend on the order: the first
+    [.luaurc] resolved is reused for every later file *)
+Definition rc_root : path := ["src"; ".luaurc"]%string.
+Definition rc_nested : path := ["src"; "nested"; ".luaurc"]%string.
+Definition rc_top : path := ["src"; "top.lua"]%string.
+Definition rc_low : path := ["src"; "nested"; "low.lua"]%string.
+
+Definition closest_rc (q : path) (f : fs) : option content :=
+  if starts_with ["src"; "nested"]%string q then
+    match fs_get f rc_nested with Some r => Some r | None => fs_get f rc_root end
+  else fs_get f rc_root.
+
+(** pure: every file uses its closest [.luaurc] *)
+Definition rc_xform (c : N) (q : path) (txt : content) (f : fs) : option content * list path :=
+  (option_map (fun r => r ++ txt) (closest_rc q f), []).
+
+(** with a cache shared by all directories *)
+Definition rc_sxform (s : option content) (c : N) (q : path) (txt : content) (f : fs)
+  : (option content * list path) * option content :=
+  match s with
+  | Some r => ((Some (r ++ txt), []), s)
+  | None => ((option_map (fun r => r ++ txt) (closest_rc q f), []), closest_rc q f)
+  end.
+
+Definition rc_fs : fs := [(rc_root, [1]); (rc_nested, [2]); (rc_top, [10]); (rc_low, [20])].
+Definition rc_items : list bitem :=
+  [(rc_top, ["out"; "top.lua"]%string); (rc_low, ["out"; "nested"; "low.lua"]%string)].
+
+Theorem shared_cache_order_refuted :
+  Permutation rc_items (rev rc_items) /\
+  fs_get (fst (fst (run_batch_st N (option content) rc_sxform false 0 rc_items rc_fs None)))
+         ["out"; "nested"; "low.lua"]%string <>
+  fs_get (fst (fst (run_batch_st N (option content) rc_sxform false 0 (rev rc_items) rc_fs None)))
+         ["out"; "nested"; "low.lua"]%string /\
+  (* and a state left by an earlier run changes the result of this one *)
+  fs_get (fst (fst (run_batch_st N (option content) rc_sxform false 0 rc_items rc_fs (Some [9]))))
+         ["out"; "top.lua"]%string <>
+  fs_get (fst (run_batch N rc_xform false 0 rc_items rc_fs)) ["out"; "top.lua"]%string.
+Proof. split; [apply Permutation_rev|]. split; vm_compute; discriminate. Qed.
+
 (** * A concrete instance: the hypotheses are satisfiable, and needed *)
 
 Definition b_a : path := ["src"; "a.lua"]%string.
